@@ -955,7 +955,9 @@ class UTMITranslator(Elaboratable):
         # RxValid: equivalent to NXT whenever a Rx is active.
         m.d.usb += [
             self.rx_data   .eq(self.ulpi.data.i),
-            self.rx_valid  .eq(self.ulpi.nxt.i & self.rx_active)
+            # (rx_start: a byte presented in the cycle right after the RxCmd that started the receive;
+            #  our rx_active only rises one cycle later)
+            self.rx_valid  .eq(self.ulpi.nxt.i & (self.rx_active | rxevent_decoder.rx_start))
         ]
 
         return m
